@@ -1,93 +1,88 @@
 /-
-C07 — `xsdata/codegen/handlers/detect_circular_references.py : DetectCircularReferences`.
+`xsdata/codegen/handlers/detect_circular_references.py` — which type references
+get the `circular` flag.  The flag removes the reference from
+`Class.dependencies()`, i.e. from the graph `toposort_flatten` orders the classes
+of a module by, and turns the field type into a forward reference; it is decided
+class by class, in the order the container visits the classes, on a reference
+graph whose already flagged edges are skipped — so it depends on that order.
 
-Classes are identified by their reference (`id()`); every `AttrType` object is an entry of one
-table `edges` (the objects are shared between the class that owns them and the cached
-`reference_types` lists of all its ancestors, so a flag set through one is seen through all).
-`refTypes` is the cache built by `build_reference_types`: class reference ↦ the types of
-`target.types()` with a non-zero reference (own extension/attr/choice types, then those of the
-inner classes), as indices into `edges`.
+Classes are numbered (`ref`, the model of `id(cls)`).
 -/
 import XsdataModel.Codegen.Basic
 
 namespace Xs.Codegen
 open Py
 
-structure TEdge where
-  /-- `tp.reference` -/
-  tgt : Nat
-  forward : Bool
-  native : Bool
-  circular : Bool
+/-- one `AttrType` occurrence with a class reference (`tp.reference`); native and
+forward types are never looked at and are left out -/
+structure CType where
+  target : Nat
+  circular : Bool := false
+  /-- belongs to `target.attrs[*].types` / `choices[*].types` (these get decided when
+  the class is processed); `false` for extension types and the types of inner
+  classes, which are only traversed -/
+  own : Bool := true
 deriving Repr, DecidableEq
 
-abbrev RefTypes := List (Nat × List Nat)
-
-inductive CircRes where
-  | ok (b : Bool)
-  | keyError   -- `self.reference_types[ref]`
-  | fuel       -- the model's step bound was reached (never observed)
-deriving Repr, DecidableEq
-
-/-- the references pushed by `stack.extend(tp.reference for tp in reference_types[ref]
-if not tp.circular and tp.reference not in path)` -/
-def pushed (edges : List TEdge) (path : List Nat) (ids : List Nat) : List Nat :=
-  ids.filterMap (fun i => match edges[i]? with
-    | some e => if !e.circular && !path.contains e.tgt then some e.tgt else none
-    | none => none)
-
-/-- the `while stack:` loop of `is_circular`; the head of `stack` is its top -/
-def circLoop (edges : List TEdge) (rt : RefTypes) (stop : Nat) : Nat → List Nat → List Nat → CircRes
-  | 0, _, _ => .fuel
-  | fuel + 1, path, stack =>
-    match stack with
-    | [] => .ok (path.contains stop)
-    | ref :: rest =>
-      if path.contains stop then .ok true
-      else
-        let path' := if path.contains ref then path else ref :: path
-        match List.lookup ref rt with
-        | none => .keyError
-        | some ids => circLoop edges rt stop fuel path' ((pushed edges path' ids).reverse ++ rest)
-
-/-- enough for every run (`Proofs/CircularSound.lean : isCircular_no_fuel`): a stale stack entry
-never pushes (depth-first order), so every cached list is expanded at most once -/
-def circFuel (rt : RefTypes) : Nat :=
-  (rt.length + 1) * ((rt.map (·.2.length)).sum + 2) + 2
-
-/-- `is_circular(start, stop)` -/
-def isCircular (edges : List TEdge) (rt : RefTypes) (start stop : Nat) : CircRes :=
-  circLoop edges rt stop (circFuel rt) [] [start]
-
-def setCircular (edges : List TEdge) (i : Nat) (b : Bool) : List TEdge :=
-  edges.modify i (fun e => { e with circular := b })
-
-/-- `process_types(types, class_reference)` for the type objects `ids`; `none` = KeyError / fuel -/
-def processTypes (rt : RefTypes) (stop : Nat) : List TEdge → List Nat → Option (List TEdge)
-  | edges, [] => some edges
-  | edges, i :: rest =>
-    match edges[i]? with
-    | none => processTypes rt stop edges rest
-    | some e =>
-      if !e.forward && !e.native && !e.circular then
-        match isCircular edges rt e.tgt stop with
-        | .ok b => processTypes rt stop (setCircular edges i b) rest
-        | _ => none
-      else processTypes rt stop edges rest
-
-/-- a class as the handler sees it: its reference and its own attr / choice type objects in
-the order `process` visits them -/
+/-- `reference_types[ref]`: all types of the class (`target.types()`) -/
 structure CClass where
   ref : Nat
-  own : List Nat
-deriving Repr
+  types : List CType
+deriving Repr, DecidableEq
 
-/-- `process(target)` for the classes in the given order (the cache is built before the first) -/
-def detectCircular (rt : RefTypes) : List TEdge → List CClass → Option (List TEdge)
-  | edges, [] => some edges
-  | edges, c :: cs =>
-    match processTypes rt c.ref edges c.own with
-    | some edges' => detectCircular rt edges' cs
-    | none => none
+abbrev CGraph := List CClass
+
+def CGraph.typesOf (g : CGraph) (r : Nat) : List CType :=
+  match g.find? (·.ref == r) with
+  | some c => c.types
+  | none => []   -- `KeyError` in the code; every reference is a class of the container
+
+/-- the `while stack:` loop of `is_circular`; `stack` top first; the first argument
+bounds the number of iterations (`none` = bound hit, never for `dfsFuel`) -/
+def isCircularLoop (g : CGraph) (stop : Nat) : Nat → List Nat → List Nat → Option Bool
+  | 0, _, _ => none
+  | fuel + 1, stack, path =>
+    match stack with
+    | [] => some (path.contains stop)
+    | r :: rest =>
+      if path.contains stop then some true else
+      let path' := if path.contains r then path else r :: path
+      -- `stack.extend(...)` appends; the next `pop()` takes the last appended
+      let next := (g.typesOf r).filterMap (fun tp =>
+        if !tp.circular && !path'.contains tp.target then some tp.target else none)
+      isCircularLoop g stop fuel (next.reverse ++ rest) path'
+
+/-- enough iterations: every iteration pops one entry, an entry is pushed for an
+edge whose target is not yet visited -/
+def dfsFuel (g : CGraph) : Nat :=
+  let e := (g.map (·.types.length)).foldl (· + ·) 0
+  (e + g.length + 2) * (e + g.length + 2)
+
+/-- `is_circular(start, stop)` -/
+def isCircular (g : CGraph) (start stop : Nat) : Option Bool :=
+  isCircularLoop g stop (dfsFuel g) [start] []
+
+/-- set the flag of the `i`-th type of class `r` -/
+def setFlag (g : CGraph) (r i : Nat) (v : Bool) : CGraph :=
+  g.map (fun c => if c.ref == r then
+    { c with types := c.types.zipIdx.map (fun p => if p.2 == i then { p.1 with circular := v } else p.1) }
+    else c)
+
+/-- `process(target)`: decide the own, not yet flagged types one after the other
+(each decision sees the flags set before). `none` = iteration bound hit. -/
+def processClass (g : CGraph) (r : Nat) : Option CGraph :=
+  ((g.typesOf r).zipIdx).foldlM (fun g p =>
+    -- read the current flag: an earlier decision may have set it (same object twice is not modelled)
+    if p.1.own && !p.1.circular then
+      (isCircular g p.1.target r).map (fun b => setFlag g r p.2 b)
+    else some g) g
+
+/-- the handler run over the classes in the order the container visits them -/
+def detectCircular (g : CGraph) (order : List Nat) : Option CGraph :=
+  order.foldlM processClass g
+
+/-- the flags, class by class -/
+def circularFlags (g : CGraph) : List (Nat × List Bool) :=
+  g.map (fun c => (c.ref, c.types.map (·.circular)))
 
 end Xs.Codegen
